@@ -4,6 +4,7 @@ import (
 	"fmt"
 	"go/token"
 	"go/types"
+	"os"
 	"sort"
 	"strings"
 
@@ -355,6 +356,27 @@ func (c *Ctx) runE2(fns []*ssa.Function, seed func(e *e2)) *e2Result {
 			break
 		}
 	}
+	if dbg := os.Getenv("E2DUMP"); dbg != "" {
+		for _, f := range fns {
+			if !strings.HasSuffix(fname(f), dbg) {
+				continue
+			}
+			fmt.Println("E2DUMP", fname(f), "inSet", e.inSet[f])
+			for i, p := range f.Params {
+				fmt.Printf("   param %s: %v\n", p.Name(), sortedKeysTok(e.param[f][i]))
+			}
+			for _, b := range f.Blocks {
+				for _, in := range b.Instrs {
+					if v, ok := in.(ssa.Value); ok {
+						fmt.Printf("   %s = %s: %v\n", v.Name(), in.String(), sortedKeysTok(e.get(v)))
+					}
+				}
+			}
+			for i, r := range e.ret[f] {
+				fmt.Printf("   ret %d: %v\n", i, sortedKeysTok(r))
+			}
+		}
+	}
 	res := &e2Result{tok: e.tok, tuple: e.tuple, unknown: e.unknown, passes: passes, nFuncs: len(fns), ext: e.ext}
 	// materialise sites in deterministic order with ordinals per (function, what)
 	var all []mutSite
@@ -588,8 +610,9 @@ func (e *e2) store(f *ssa.Function, x *ssa.Store) {
 				e.changed = true
 			}
 		}
-		// writing a field of an object that is itself borrowed/shared
-		e.recordSite(mutSite{fn: f, instr: x, what: "store-field", target: a.X, levels: "C"})
+		// writing a field of an object that is itself borrowed/shared - as the container (C), or as something that
+		// was reached through one (an element of a list of messages, a sub-message of a shared protobuf: D)
+		e.recordSite(mutSite{fn: f, instr: x, what: "store-field", target: a.X, levels: "CD"})
 		return
 	case *ssa.IndexAddr:
 		base := baseOf(a)
